@@ -32,6 +32,8 @@ KEYWORDS = {
     "COMMIT", "TRANSACTION", "PRAGMA", "DROP", "ALTER", "ADD", "COLUMN",
     "FOREIGN", "DEFAULT", "END", "ROLLBACK", "OFFSET", "COUNT", "REPLACE",
     "DEFERRED", "IMMEDIATE", "EXCLUSIVE", "CONSTRAINT", "RENAME", "TO",
+    "JOIN", "LEFT", "INNER", "OUTER", "CROSS", "AS", "GROUP", "HAVING", "USING",
+    "NATURAL", "RIGHT", "FULL",
 }
 
 
@@ -111,6 +113,10 @@ class Stmt(object):
         if k == "select":
             s = "SELECT %s%s FROM %s" % ("DISTINCT " if self.distinct else "",
                                          ",".join(self.cols), self.table)
+            for (jk, jt, on) in self.extra.get("joins", []):
+                s += " %s JOIN %s" % (jk.upper(), jt)
+                if on is not None:
+                    s += " ON " + on.render()
         elif k == "insert":
             s = "INSERT INTO %s (%s)" % (self.table, ",".join(self.cols))
         elif k == "update":
@@ -316,9 +322,7 @@ class _P(object):
             w = self.or_expr()
             self.expect_punct(")")
             return w
-        col = self.ident()
-        if self.eat_punct("."):
-            col = self.ident()
+        col = self.qcol()
         t = self.peek()
         if t.kind == "op":
             self.i += 1
@@ -328,6 +332,8 @@ class _P(object):
             if op == "<>":
                 op = "!="
             val = self.atom()
+            if val.kind == "col" and self.eat_punct("."):
+                val = Atom("col", self._qualify(val.value, self.ident()))
             return Where("cmp", col=col, cmpop=op, value=val)
         if self.eat_kw("IS"):
             if self.eat_kw("NOT"):
@@ -347,8 +353,52 @@ class _P(object):
             return Where("notin" if neg else "in", col=col, sub=sub)
         raise SqlUnparsed("unsupported predicate at %r in %r" % (t, self.text))
 
+    primary = None
+
+    def _qualify(self, table, col):
+        """columns of the statement's primary table are unqualified; columns
+        of joined tables keep the form table.col"""
+        if self.primary is None or table == self.primary:
+            return col
+        return "%s.%s" % (table, col)
+
+    def qcol(self):
+        name = self.ident()
+        if self.eat_punct("."):
+            if self.eat_punct("*"):
+                return "*"
+            return self._qualify(name, self.ident())
+        return name
+
+    def _find_primary(self):
+        """look ahead for the FROM table of the select starting here"""
+        depth = 0
+        j = self.i
+        while j < len(self.toks):
+            tk = self.toks[j]
+            if tk.kind == "punct" and tk.text == "(":
+                depth += 1
+            elif tk.kind == "punct" and tk.text == ")":
+                if depth == 0:
+                    return None
+                depth -= 1
+            elif depth == 0 and tk.kind == "kw" and tk.text == "FROM":
+                if j + 1 < len(self.toks) and self.toks[j + 1].kind == "ident":
+                    return self.toks[j + 1].text
+                return None
+            j += 1
+        return None
+
     def select(self):
         self.expect_kw("SELECT")
+        saved_primary = self.primary
+        self.primary = self._find_primary()
+        try:
+            return self._select_body()
+        finally:
+            self.primary = saved_primary
+
+    def _select_body(self):
         distinct = bool(self.eat_kw("DISTINCT"))
         cols = []
         extra = {}
@@ -364,14 +414,44 @@ class _P(object):
                 self.expect_punct(")")
                 cols.append("COUNT()")
             else:
-                cols.append(self.ident())
+                c = self.qcol()
+                if self.eat_kw("AS"):
+                    c = self.ident()
+                cols.append(c)
             if not self.eat_punct(","):
                 break
         self.expect_kw("FROM")
         table = self.ident()
+        if self.eat_kw("AS"):
+            raise SqlUnparsed("table aliases are not modelled: %r" % self.text)
+        joins = []
+        while self.at_kw("JOIN", "LEFT", "INNER", "CROSS", "NATURAL", "RIGHT", "FULL") \
+                or self.at_punct(","):
+            if self.at_punct(","):
+                raise SqlUnparsed("comma joins are not modelled: %r" % self.text)
+            kind = "inner"
+            if self.eat_kw("LEFT"):
+                kind = "left"
+                self.eat_kw("OUTER")
+            elif self.eat_kw("INNER"):
+                kind = "inner"
+            elif self.at_kw("CROSS", "NATURAL", "RIGHT", "FULL"):
+                raise SqlUnparsed("join kind not modelled: %r" % self.text)
+            self.expect_kw("JOIN")
+            jt = self.ident()
+            on = None
+            if self.eat_kw("ON"):
+                on = self.where()
+            joins.append((kind, jt, on))
+        if joins:
+            extra["joins"] = joins
         where = None
         if self.eat_kw("WHERE"):
             where = self.where()
+        # ON conditions of inner joins restrict the result like WHERE conjuncts
+        for (kind, jt, on) in joins:
+            if kind == "inner" and on is not None:
+                where = on if where is None else Where("and", args=[where, on])
         order = []
         if self.eat_kw("ORDER"):
             self.expect_kw("BY")
